@@ -5,6 +5,7 @@ import "strings"
 func init() { register("C04", propC04) }
 
 func propC04(c *Ctx) propInfo {
+	c.statelessCodecs("E17.stateless", excStateless, "tlb", "boc")
 	c.layoutVsSpec(func(k string) bool { return strings.HasPrefix(k, "tlb.") || strings.HasPrefix(k, "wallet.") })
 	c.floor("E3b.layout=spec", 40)
 	c.intFamily(true, false, false)
